@@ -58,9 +58,9 @@ def validate_mro(chk):
     chk.obligation("exception class hierarchy of the model equals the interpreter's __mro__ (4 classes)", not bad, repr(bad))
 
 
-def judge(chk, text, ires, kind):
+def judge(chk, text, ires, kind, sb=False):
     """the property statement on the real reader's behaviour"""
-    how = "PYTHONPATH=%s python -c 'import hy; list(hy.read_many(%r))'" % (vlib.REPO, text)
+    how = "PYTHONPATH=%s python -c 'import hy; list(hy.read_many(%r%s))'" % (vlib.REPO, text, ", skip_shebang=True" if sb else "")
     if ires[0] == "Other":
         chk.fail("other-exception", {"text": text, "kind": kind}, "%s: %s" % (ires[1], ires[2]),
                  "models, LexException or PrematureEndOfInput", how)
@@ -74,8 +74,10 @@ def run(chk):
     chk.assumptions = [
         "'reading with hy.read-many' is list(hy.read_many(text)) with the default HyReader, as the property's observation "
         "point says; reader macros defined by the text itself are excluded (C37)",
-        "'always terminates' is checked on the real code with a 20 s watchdog that must fire twice; the proof of "
-        "termination is about the model",
+        "'always terminates' is checked on the real code with a 5 s watchdog confirmed by a 20 s one; after two confirmed "
+        "non-terminating reads the run stops generating (they are reported); the proof of termination is about the model",
+        "files are read with skip_shebang=True (importer, hy2py, hy command): that stream is judged and modelled too "
+        "(read_many_file)",
     ]
     chk.prove("Props/C18.v", ["Props/C18.vo", "Reader/Extract.vo"], [reader_tables.translate])
     thorough = chk.tier == "thorough"
@@ -96,11 +98,11 @@ def run(chk):
                 "minimal-separator printing and one random mutation each + nesting up to 3000 deep + long inputs; "
                 "non-trivial = distinct text whose reading is not the empty model list")
 
-    def case(text, kind, correspond=True):
-        ires = impl.read_many(text)
+    def case(text, kind, correspond=True, sb=False):
+        ires = impl.read_many(text, skip_shebang=sb)
         chk.count("kind:" + kind)
         chk.count("impl:" + ires[0])
-        judge(chk, text, ires, kind)
+        judge(chk, text, ires, kind, sb)
         nontrivial = not (ires[0] == "Ok" and not ires[1])
         sample = None
         if chk.evaluations % 2500 == 17:
@@ -113,40 +115,71 @@ def run(chk):
             return
         if ires[0] in ("Other", "Timeout"):
             return
-        mres = model.read_many(text)
+        mres = model.read_many(text, skip_shebang=sb)
         chk.count("model:" + mres[0])
         d = rc.compare(text, mres, ires, oracles)
         if d:
-            chk.disagree("Reader.Model.read_many vs hy.read_many", text, d, ires[0])
+            chk.disagree("Reader.Model.read_many%s vs hy.read_many%s" % (("_file", "(skip_shebang=True)") if sb else ("", "")),
+                         text, d, ires[0])
 
-    for t in rc.CORPUS:
-        case(t, "corpus")
-    n_soup = 120000 if thorough else 7000
-    n_prog = 60000 if thorough else 3500
-    for _ in range(n_soup):
-        case(rc.soup(rng), "soup")
-    for _ in range(n_prog):
-        p = gen.program()
-        t, _r = rc.render(p)
-        case(t, "program")
-        case(rc.mutate(rng, t), "mutated")
-        if rng.random() < 0.5:
-            case(rc.mutate(rng, rc.mutate(rng, t)), "mutated2")
-        t2, _r = rc.render(p, "min")
-        case(t2, "program-min")
-    # deep nesting: the implementation must classify even when Python's recursion limit is hit.  Completed
-    # nests between ~150 and the recursion limit are left out: fill_pos/replace make reading them take
-    # minutes (polynomial, it does terminate), which no watchdog could tell from divergence.
-    for opener, closer in (("(", ")"), ("[", "]"), ("#{", "}"), ("'", ""), ("#_", " x"), ('f"{', '}"'), ("~@", "")):
-        for depth in ((40, 300, 1000, 3000, 10000) if thorough else (40, 300, 1000)):
-            case(opener * depth, "deep-open", correspond=depth <= 40)
-            if depth <= 40 or depth >= 1000:
-                case(opener * depth + "a" + closer * depth, "deep", correspond=depth <= 40)
-    # long flat inputs (termination in time linear in the input on the real code; the extracted model keeps
-    # unary lengths and is only run on the shorter ones)
-    for n in ((2000, 20000, 200000) if thorough else (2000, 20000)):
-        for t in ("a " * n, "(" + "x " * n + ")", '"' + "y" * n + '"', ";" + "z" * n, "#[[" + "w" * n, "'" + "(a) " * n):
-            case(t, "long", correspond=n <= 2000)
+    try:
+        for t in rc.CORPUS:
+            case(t, "corpus")
+        n_soup = 120000 if thorough else 6000
+        n_prog = 60000 if thorough else 3500
+        for _ in range(n_soup):
+            case(rc.soup(rng), "soup")
+        for _ in range(n_prog):
+            p = gen.program()
+            t, _r = rc.render(p)
+            case(t, "program")
+            case(rc.mutate(rng, t), "mutated")
+            if rng.random() < 0.5:
+                case(rc.mutate(rng, rc.mutate(rng, t)), "mutated2")
+            t2, _r = rc.render(p, "min")
+            case(t2, "program-min")
+        # deep nesting: the implementation must classify even when Python's recursion limit is hit.  Completed
+        # nests between ~150 and the recursion limit are left out: fill_pos/replace make reading them take
+        # minutes (polynomial, it does terminate), which no watchdog could tell from divergence.
+        for opener, closer in (("(", ")"), ("[", "]"), ("#{", "}"), ("'", ""), ("#_", " x"), ('f"{', '}"'), ("~@", "")):
+            for depth in ((40, 300, 1000, 3000, 10000) if thorough else (40, 300, 1000)):
+                case(opener * depth, "deep-open", correspond=depth <= 40)
+                if depth <= 40 or depth >= 1000:
+                    case(opener * depth + "a" + closer * depth, "deep", correspond=depth <= 40)
+        # long flat inputs (termination in time linear in the input on the real code; the extracted model keeps
+        # unary lengths and is only run on the shorter ones)
+        for n in ((2000, 20000, 200000) if thorough else (2000, 20000)):
+            for t in ("a " * n, "(" + "x " * n + ")", '"' + "y" * n + '"', ";" + "z" * n, "#[[" + "w" * n, "'" + "(a) " * n):
+                case(t, "long", correspond=n <= 2000)
+        # files: skip_shebang=True is how the importer, hy2py and the hy command read source; HyReader.parse skips the
+        # shebang line outside try_parse_one_form
+        SHEBANGS = ["#!", "#!x", "#!/usr/bin/env hy", "#!\r", "#!\r\n", "#!\n", "#!\n\n", "#!/usr/bin/env hy\n", "#!x\n(a b)", "#!x\n(a",
+                    "#!x\n#!y\nz", "#!x\r(a)", " #!x\n1", "#", "#! ", "#!\x00", "#!\u2028a", "\ufeff#!x\n1", "#!(\n)", "#!\"\n\"",
+                    "#!;\n1", "#_#!x\n1", "#!" + "y" * 5000, "#!" + "y" * 5000 + "\n(ok)"]
+        for t in SHEBANGS:
+            case(t, "shebang-corpus", sb=True)
+            case(t, "shebang-corpus-default")
+        for t in rc.CORPUS:
+            case(t, "corpus-file", sb=True)
+        for _ in range(20000 if thorough else 1200):
+            r = rng.random()
+            if r < 0.35:
+                t = "#!" + rc.soup(rng)
+            elif r < 0.5:
+                t = "#!" + rc.soup(rng, 3) + "\n" + rc.soup(rng)
+            elif r < 0.65:
+                p = gen.program()
+                t = rng.choice(["#!/usr/bin/env hy\n", "#!\n", "#!x\r\n", "#!a\rb\n"]) + rc.render(p)[0]
+            elif r < 0.8:
+                p = gen.program()
+                full = "#!/usr/bin/env hy\n" + rc.render(p)[0]
+                t = full[:rng.randrange(len(full) + 1)]
+            else:
+                t = rc.soup(rng)
+            case(t, "shebang", sb=True)
+    except rc.TooManyTimeouts:
+        chk.notes.append("stopped generating after %d reads that did not terminate (each confirmed with a 20 s allowance)"
+                         % rc.MAX_TIMEOUTS)
     if model:
         model.close()
     chk.extra["oracle_queries"] = oracles.queries
